@@ -61,7 +61,7 @@ PROFILES = {
     "C06": dict(own=["undo.run", "undo.restore", "undo.weight"],
                 gens=[dict(ids=FAST, first=["simulate", "generate"], edits=["update", "updateargs", "regenerate", "indexupdate", "indexregen", "staticreq", "diffannotate", "empty"], depth=3, n=(128, 2400)),
                       dict(ids=SLOW, first=["simulate"], edits=["update", "regenerate", "indexupdate", "indexregen"], depth=2, n=(24, 500))]),
-    "C07": dict(own=["regen.unselected", "regen.weight", "regen.empty", "upd.args"] + TRC,
+    "C07": dict(own=["regen.unselected", "regen.weight", "regen.empty", "upd.args", "regen.prior", "regen.total", "regen.others", "regen.run"] + TRC,
                 gens=[dict(ids=REGEN, first=["simulate", "generate"], edits=["regenerate", "regenerate", "regenerate", "update"], depth=3, n=(128, 2400)),
                       dict(ids=REGEN_SLOW, first=["simulate"], edits=["regenerate"], depth=2, n=(24, 400))]),
     "C08": dict(own=["nochange", "tagging", "tagging.run"],
@@ -392,6 +392,9 @@ def run(prop_id, tier, seed, replay=None):
                 rep.violation(signature(prop_id, cl, ev, None), {"case": case_of(f["tid"]), "event": ev, "clauses": f["clauses"]})
             else:
                 other[cl] = other.get(cl, 0) + 1
+    if prop_id == "C07" and not replay:      # C07.prior: regenerated values follow the prior given the current parents
+        from . import eng_gfisample
+        eng_gfisample.regen_prior(prop_id, rep, wd, catalog, tier, seed)
     # coverage bookkeeping
     rep.evaluations = len(good)
     rep.traces = len(cases)
